@@ -104,40 +104,45 @@ var (
 		"m.room.history_visibility": {"history_visibility"},
 		"m.room.redaction":          {"redacts"},
 	}
+	// For satisfying "m.room.member [...] Additionally, it allows the signed key of the third_party_invite key."
+	// Maps event type -> content key -> keys of that object which survive redaction.
+	unredactableNestedContentFieldsV5 = map[string]map[string][]string{
+		"m.room.member": {"third_party_invite": {"signed"}},
+	}
 )
 
 // RedactEvent strips the user controlled fields from an event, but leaves the
 // fields necessary for authenticating the event. Implements https://spec.matrix.org/unstable/rooms/v9/#redactions
 // which protects membership 'join_authorised_via_users_server' key
 func redactEventJSONV5(eventJSON []byte) ([]byte, error) {
-	return redactEventJSON(eventJSON, &unredactableEventFieldsV2{}, unredactableContentFieldsV5)
+	return redactEventJSON(eventJSON, &unredactableEventFieldsV2{}, unredactableContentFieldsV5, unredactableNestedContentFieldsV5)
 }
 
 // RedactEvent strips the user controlled fields from an event, but leaves the
 // fields necessary for authenticating the event. Implements https://spec.matrix.org/unstable/rooms/v9/#redactions
 // which protects membership 'join_authorised_via_users_server' key
 func redactEventJSONV4(eventJSON []byte) ([]byte, error) {
-	return redactEventJSON(eventJSON, &unredactableEventFieldsV1{}, unredactableContentFieldsV4)
+	return redactEventJSON(eventJSON, &unredactableEventFieldsV1{}, unredactableContentFieldsV4, nil)
 }
 
 // RedactEvent strips the user controlled fields from an event, but leaves the
 // fields necessary for authenticating the event. Implements https://spec.matrix.org/unstable/rooms/v8/#redactions
 // which protects join rules 'allow' key
 func redactEventJSONV3(eventJSON []byte) ([]byte, error) {
-	return redactEventJSON(eventJSON, &unredactableEventFieldsV1{}, unredactableContentFieldsV3)
+	return redactEventJSON(eventJSON, &unredactableEventFieldsV1{}, unredactableContentFieldsV3, nil)
 }
 
 // RedactEvent strips the user controlled fields from an event, but leaves the
 // fields necessary for authenticating the event. Implements https://spec.matrix.org/unstable/rooms/v6/#redactions
 // which has no special meaning for m.room.aliases
 func redactEventJSONV2(eventJSON []byte) ([]byte, error) {
-	return redactEventJSON(eventJSON, &unredactableEventFieldsV1{}, unredactableContentFieldsV2)
+	return redactEventJSON(eventJSON, &unredactableEventFieldsV1{}, unredactableContentFieldsV2, nil)
 }
 
 // RedactEvent strips the user controlled fields from an event, but leaves the
 // fields necessary for authenticating the event. Implements https://spec.matrix.org/unstable/rooms/v1/#redactions
 func redactEventJSONV1(eventJSON []byte) ([]byte, error) {
-	return redactEventJSON(eventJSON, &unredactableEventFieldsV1{}, unredactableContentFieldsV1)
+	return redactEventJSON(eventJSON, &unredactableEventFieldsV1{}, unredactableContentFieldsV1, nil)
 }
 
 type unredactableEvent interface {
@@ -147,7 +152,7 @@ type unredactableEvent interface {
 	SetContent(map[string]interface{})
 }
 
-func redactEventJSON[T unredactableEvent](eventJSON []byte, unredactableEvent T, eventTypeToKeepContentFields map[string][]string) ([]byte, error) {
+func redactEventJSON[T unredactableEvent](eventJSON []byte, unredactableEvent T, eventTypeToKeepContentFields map[string][]string, eventTypeToKeepNestedContentFields map[string]map[string][]string) ([]byte, error) {
 	// Unmarshalling into a struct will discard any extra fields from the event.
 	if err := json.Unmarshal(eventJSON, &unredactableEvent); err != nil {
 		return nil, err
@@ -162,6 +167,22 @@ func redactEventJSON[T unredactableEvent](eventJSON []byte, unredactableEvent T,
 			val, ok := unredactableEvent.GetContent()[contentKey]
 			if ok {
 				newContent[contentKey] = val
+			}
+		}
+		// Objects of which only some keys are kept.
+		for contentKey, nestedKeys := range eventTypeToKeepNestedContentFields[unredactableEvent.GetType()] {
+			nested, ok := unredactableEvent.GetContent()[contentKey].(map[string]interface{})
+			if !ok {
+				continue
+			}
+			newNested := map[string]interface{}{}
+			for _, nestedKey := range nestedKeys {
+				if val, ok := nested[nestedKey]; ok {
+					newNested[nestedKey] = val
+				}
+			}
+			if len(newNested) > 0 {
+				newContent[contentKey] = newNested
 			}
 		}
 	}
